@@ -122,6 +122,7 @@ class Gen:
         nstrat = want.get("nstrat", r.choice([0, 1, 1, 2, 2, 3]))
         used = []
         strat_strata = {}
+        cross = {}
         have_age = have_strain = False
         infection_dests = {o["dst"] for o in ops if o["op"] == "flow" and o["kind"].startswith("infection")}
         for k in range(nstrat):
@@ -206,6 +207,10 @@ class Gen:
                                 # both ends filtered, possibly on different stratifications / strata
                                 prev2 = r.choice(used)
                                 sf, df = filt, {prev2: r.choice(strat_strata[prev2])}
+                        if want.get("cross") and fn in cross and r.random() < 0.7:
+                            # same-named flows leaving one stratum for several others: select one of them by BOTH ends
+                            cs_, ca_, cbs_ = cross[fn]
+                            sf, df = {cs_: ca_}, {cs_: r.choice(cbs_)}
                         fadj.append([fn, adjs, sf, df])
                         meta["adj"].append("filtered" if (sf or df) else "plain")
                         if r.random() < 0.2:
@@ -246,6 +251,16 @@ class Gen:
                 ops.append(o2)
                 flow_names.append(o2["name"])
                 meta["flows"].append("post-strat")
+            if want.get("cross") and len(strata) >= 2 and r.random() < want["cross"]:
+                s_ = r.choice(scomps)
+                d_ = r.choice(scomps)
+                nm = "cross%d" % k
+                for b_ in strata[1:]:
+                    ops.append({"op": "flow", "kind": "transition", "name": nm, "param": frac(r), "src": s_, "dst": d_,
+                                "sf": {name: strata[0]}, "df": {name: b_}})
+                flow_names.append(nm)
+                cross[nm] = (name, strata[0], strata[1:])
+                meta["flows"].append("cross-stratum")
         # rebalance after the last stratification
         if used and r.random() < 0.25:
             sname = r.choice(used)
